@@ -185,49 +185,80 @@ def capReached : Option Nat → Nat → Bool
   | none, _ => false
   | some c, i => i ≥ c
 
-/-- the poller takes an event `(inn, out)` for this fd off epoll_wait. RDHUP accompanies IN once the FIN
-    is there, ERR|HUP is reported whenever a socket error is pending — kernel behaviour, assumed. -/
+/-- what taking an event off epoll_wait does to the kernel side: ET consumes the edge, ONESHOT also disarms -/
+def disarm (g : Cfg) (k : K) : K :=
+  match g.mode with
+  | .lt => k
+  | .et => { k with edge := false }
+  | .os => { k with edge := false, armed := false }
+
+def setPs (s : St) (p : PS) : St := { s with ps := p }
+def setK (s : St) (k : K) : St := { s with k := k }
+
+/-- after the read part of an event: the tail (`ResetPollerEvent` / close) only matters with a hang-up flag -/
+def afterEvent (fl : Flags) : PS := if fl.hang then .fin fl else .idle
+
+/-- the flags of a report `(inn, out)`: RDHUP accompanies IN once the FIN is there, ERR|HUP is reported whenever
+    a socket error is pending — kernel behaviour, assumed -/
+def flagsOf (s : St) (inn out : Bool) : Flags := { inn, out, rdhup := inn && s.k.eof, err := s.k.rerr }
+
+/-- when may the kernel hand the poller an event `(inn, out)` for this fd (the readiness assumption):
+    the poller is not already handling one for this fd, the fd is registered and open, the event is not empty,
+    the whole ready mask is reported (IN whenever readable), EPOLLOUT is only in the interest set in plain ET
+    mode, and a disarmed one-shot fd is never reported -/
+def reportOk (g : Cfg) (s : St) (inn out : Bool) : Bool :=
+  s.ps == .idle && !s.closed && s.k.reg && (inn || out || s.k.rerr) && ((s.k.qlen == 0 && !s.k.eof) || inn) &&
+  (!out || g.mode == .et) && (g.mode != .os || s.k.armed)
+
+/-- the poller's dispatch on the event flags (readWriteLoop, EPOLLIN branch) -/
+def dispatch (g : Cfg) (s : St) (fl : Flags) : St :=
+  if fl.inn then
+    if g.isAsync then setPs (if g.mode == .os then spawnTask s else gate s) (afterEvent fl)
+    else setPs s (.rd 0 fl)
+  else setPs s (afterEvent fl)
+
+/-- the poller takes an event `(inn, out)` for this fd off epoll_wait -/
 def report (g : Cfg) (s : St) (inn out : Bool) : Option St :=
-  let fl : Flags := { inn, out, rdhup := inn && s.k.eof, err := s.k.rerr }
-  if s.ps != .idle || s.closed || !s.k.reg then none
-  else if !(inn || out || fl.err) then none
-  else if (s.k.qlen > 0 || s.k.eof) && !inn then none   -- the kernel reports the whole ready mask: IN whenever readable
-  else if out && g.mode != .et then none                -- EPOLLOUT is only in the interest set in plain ET mode
-  else if g.mode == .os && !s.k.armed then none         -- a disarmed one-shot fd is never reported
-  else
-    let k := match g.mode with
-      | .lt => s.k
-      | .et => { s.k with edge := false }
-      | .os => { s.k with edge := false, armed := false }
-    let s := { s with k }
-    if inn then
-      if g.isAsync then
-        let s := if g.mode == .os then spawnTask s else gate s
-        some { s with ps := if fl.hang then .fin fl else .idle }
-      else some { s with ps := .rd 0 fl }
-    else some { s with ps := if fl.hang then .fin fl else .idle }
+  if reportOk g s inn out then some (dispatch g (setK s (disarm g s.k)) (flagsOf s inn out)) else none
+
+/-- where the synchronous loop goes after an answer: next iteration, or the tail of the event -/
+def nextPs (g : Cfg) (i : Nat) (fl : Flags) : Next → PS
+  | .again => if capReached (loopCap g fl) (i + 1) then .fin fl else .rd (i + 1) fl
+  | _ => .fin fl
+
+/-- tail of an event: `ResetPollerEvent` (synchronous one-shot path), then close on a hang-up flag -/
+def finish (g : Cfg) (s : St) (fl : Flags) : St :=
+  let s := if !g.isAsync && g.mode == .os && fl.inn then rearm s else s
+  if fl.hang then closeHang s else s
 
 /-- one poller step -/
 def pstep (g : Cfg) (s : St) : Option St :=
   match s.ps with
   | .idle => none
   | .rd i fl =>
-    let (a, s) := doRead g s
-    let (nx, s) := consume g s a
-    match nx with
-    | .again => if capReached (loopCap g fl) (i + 1) then some { s with ps := .fin fl } else some { s with ps := .rd (i + 1) fl }
-    | _ => some { s with ps := .fin fl }
-  | .fin fl =>
-    let s := if !g.isAsync && g.mode == .os && fl.inn then rearm s else s
-    let s := if fl.hang then closeHang s else s
-    some { s with ps := .idle }
+    let r := doRead g s
+    let c := consume g r.2 r.1
+    some (setPs c.2 (nextPs g i fl c.1))
+  | .fin fl => some (setPs (finish g s fl) .idle)
+
+def setTask (s : St) (t : TS) : St := { s with task := t }
 
 /-- the task performs its next read (or finds the conn closed and returns) -/
 def taskRead (g : Cfg) (s : St) : St :=
-  if s.closed then { s with task := .none }
+  if s.closed then setTask s .none
   else
-    let (a, s) := doRead g s
-    { s with task := .rd a }
+    let r := doRead g s
+    setTask r.2 (.rd r.1)
+
+/-- what the task does after `consume`: read again, leave the inner loop (one-shot: re-arm and return;
+    otherwise decrement `readEvents` and return iff it reached 0), or return after an error -/
+def taskNext (g : Cfg) (s : St) : Next → St
+  | .again => taskRead g s
+  | .brk =>
+    if g.mode == .os then setTask (rearm s) .none
+    else if s.re - 1 = 0 then setTask { s with re := 0 } .none
+    else setTask { s with re := s.re - 1 } (.dec (s.re - 1))
+  | .dead => setTask s .none
 
 /-- one read-task step (from one pause point to the next) -/
 def tstep (g : Cfg) (s : St) : Option St :=
@@ -235,14 +266,8 @@ def tstep (g : Cfg) (s : St) : Option St :=
   | .none => none
   | .queued => some (taskRead g s)
   | .rd a =>
-    let (nx, s) := consume g s a
-    match nx with
-    | .again => some (taskRead g s)
-    | .brk =>
-      if g.mode == .os then some { rearm s with task := .none }
-      else if s.re - 1 = 0 then some { s with re := 0, task := .none }      -- `AddInt32(-1) == 0`: return
-      else some { s with re := s.re - 1, task := .dec (s.re - 1) }
-    | .dead => some { s with task := .none }
+    let c := consume g s a
+    some (taskNext g c.2 c.1)
   | .dec _ => some (taskRead g s)
 
 inductive Act
@@ -250,6 +275,7 @@ inductive Act
   | dgram (a : Addr) (b : List UInt8)
   | eof | rderr | intr (n : Nat)
   | report (inn out : Bool)
+  | stale                      -- the kernel drops an unreported edge whose cause has been consumed meanwhile
   | pstep | tstep
   deriving Repr
 
@@ -269,6 +295,7 @@ def step (g : Cfg) (s : St) : Act → Option St
   | .rderr => some { s with k := { s.k with rerr := true, edge := true } }
   | .intr n => some { s with k := { s.k with intr := s.k.intr + n } }
   | .report i o => report g s i o
+  | .stale => if s.k.readable then none else some { s with k := { s.k with edge := false } }
   | .pstep => pstep g s
   | .tstep => tstep g s
 
